@@ -8,7 +8,8 @@ from ..runner import crash_violation
 PID = "C04"
 LEVEL = "model_checking"
 RULE = ("systems of 3-4 molecules with single- and multi-atom residues x every split of the residue list into a supplied prefix "
-        "(every prefix length, whole molecules and partial chains) given at atom level (-c) or as centres (-mc) x residue names "
+        "(every prefix length, whole molecules and partial chains) given at atom level (-c) or as centres (-mc), and every three-way "
+        "split prefix by -c / longer prefix by -mc / rest missing, and a molecule whose residue ids restart, x residue names "
         "named for rebuilding (-res: none / each name) x ignored molecule type at first / middle / last position of [ molecules ] "
         "(-ign) x every schedule of <=2 injected step / attempt failures and <=1 direction deviation. Oracle: atoms given with -c "
         "keep their input line coordinates exactly (memory and file), -mc residues have their centre of geometry on the given "
@@ -68,6 +69,15 @@ def configs(tier):
                     if res is not None and k == 0:
                         continue
                     yield dict(sys=sysd, kind=kind, k=k, res=res, ign=None)
+    # three-way splits: a prefix at atom level (-c), a longer prefix as centres (-mc, read from the first residue again), the
+    # rest missing
+    for mols in base_mols[:2]:
+        types = sorted({n for n, _ in mols})
+        sysd = dict(types=types, molecules=mols, box=BOX, grid=GRID, kwargs=dict(nrewind=2, maxiter=3))
+        nres = len(residue_list(sysd))
+        for k in range(1, nres):
+            for m in range(1, nres - k + 1):
+                yield dict(sys=sysd, kind="c+mc", k=k, m=m, res=None, ign=None)
     # ignored molecule type at first / middle / last position, fully supplied with coordinates
     for mols in ([("W", 2), ("CH3", 1), ("CH2", 1)], [("CH3", 1), ("W", 2), ("CH2", 1)], [("CH3", 1), ("CH2", 1), ("W", 2)]):
         types = sorted({n for n, _ in mols})
@@ -101,6 +111,8 @@ def materialise(cfg):
     elif cfg.get("given") == "all-but-last-molecule":
         lastmol = rl[-1][0]
         given_idx = [i for i, x in enumerate(rl) if x[0] != lastmol]
+    elif cfg["kind"] == "c+mc":
+        given_idx = list(range(cfg["k"] + cfg["m"]))
     else:
         given_idx = []
         count = 0
@@ -113,9 +125,24 @@ def materialise(cfg):
     if cfg["res"] is not None:
         sysd["kwargs"]["build_res"] = [cfg["res"]]
     in_atoms, in_coords = [], []
+    mc_atoms, mc_coords = [], []
+    kind_of = {}
     for i in given_idx:
         mi, name, r, resname, names = rl[i]
-        if cfg["kind"] == "c":
+        kind_of[(mi, r)] = "c" if (cfg["kind"] == "c" or (cfg["kind"] == "c+mc" and i < cfg["k"])) else "mc"
+        if cfg["kind"] == "c+mc":
+            if i < cfg["k"]:
+                for an in names:
+                    in_atoms.append((resid_of(sysd, name, r), resname, an))
+                    in_coords.append(tuple(atoms[(mi, r, an)]))
+                # the centre file is read from the first residue again: it lists the atom-level residues too, with the
+                # centre of the supplied atoms
+                mc_atoms.append((resid_of(sysd, name, r), resname, names[0]))
+                mc_coords.append(tuple(np.round(np.mean([atoms[(mi, r, an)] for an in names], axis=0), 3)))
+            else:
+                mc_atoms.append((resid_of(sysd, name, r), resname, names[0]))
+                mc_coords.append(tuple(centres[(mi, r)]))
+        elif cfg["kind"] == "c":
             for an in names:
                 in_atoms.append((resid_of(sysd, name, r), resname, an))
                 in_coords.append(tuple(atoms[(mi, r, an)]))
@@ -123,8 +150,10 @@ def materialise(cfg):
             in_atoms.append((resid_of(sysd, name, r), resname, names[0]))
             in_coords.append(tuple(centres[(mi, r)]))
     if in_atoms:
-        sysd["input"] = dict(kind=cfg["kind"], atoms=in_atoms, coords=in_coords, box=BOX)
-    exp = dict(given={(rl[i][0], rl[i][2]) for i in given_idx},
+        sysd["input"] = dict(kind="c" if cfg["kind"] == "c+mc" else cfg["kind"], atoms=in_atoms, coords=in_coords, box=BOX)
+    if mc_atoms:
+        sysd["input_mc"] = dict(kind="mc", atoms=mc_atoms, coords=mc_coords, box=BOX)
+    exp = dict(kind_of=kind_of, given={(rl[i][0], rl[i][2]) for i in given_idx},
                built={(x[0], x[2]) for i, x in enumerate(rl) if i not in given_idx},
                centres=centres, atoms=atoms, rl=rl)
     return sysd, exp
@@ -199,7 +228,7 @@ def judge(cfg, sysd, exp, res, choices):
         by_res.setdefault((mi, r), []).append((an, p, g))
     for key in exp["given"]:
         mi, r = key
-        if cfg["kind"] == "c":
+        if exp["kind_of"].get(key, cfg["kind"]) == "c":
             for an, p, g in by_res[key]:
                 want = exp["atoms"][(mi, r, an)]
                 if p is None or not np.array_equal(np.asarray(p), want):
